@@ -37,7 +37,7 @@ TOBJ    := $(patsubst $(REPO)/src/lib/%.c,$(T)/lib/%.o,$(LIBSRC))
 TCFLAGS := -O1 -g -fsanitize=thread $(DEFS) $(INC)
 TCXXFLAGS := -std=gnu++17 -O1 -g -fsanitize=thread $(DEFS) $(INC) -I. -Wno-deprecated-declarations
 
-HDRS    := pbt/pbt.hpp ref/zckref.hpp lib/zcklib.hpp $(wildcard gen/*.hpp) $(wildcard props/*.hpp)
+HDRS    := pbt/pbt.hpp $(wildcard ref/*.hpp) lib/zcklib.hpp $(wildcard gen/*.hpp) $(wildcard props/*.hpp)
 
 .PHONY: all header
 .SECONDARY:
